@@ -44,6 +44,7 @@ class Injector:
 
     def reset_plan(self):
         self.ops = []            # ('push', cmdline) | ('host', name) | ('cmd', cmdline)
+        self.cmds = []           # every git command line of the current plan
         self.pushes = []
         self.ncmd = 0
         self.before_push = {}    # push index -> callable()
@@ -145,5 +146,4 @@ class Injector:
         return real_subprocess.Popen(command, **kw)
 
     def ops_all_append(self, cmdline):
-        self.cmds = getattr(self, 'cmds', [])
         self.cmds.append(cmdline)
